@@ -1,6 +1,8 @@
 package simrt
 
 import (
+	"cmp"
+	"slices"
 	"sort"
 	"strings"
 	"sync"
@@ -702,4 +704,18 @@ func (m *Map) Clear() {
 	}
 	m.m = nil
 	m.order = nil
+}
+
+
+// SortedKeys returns the keys of m in ascending order. Substituted for `range m` over maps
+// in Helios (Go randomises map iteration order; it is the one source of randomness inside
+// Helios itself): entries deleted during the loop are skipped by the rewritten loop header,
+// entries inserted during the loop are not visited -- both allowed by the language.
+func SortedKeys[K cmp.Ordered, V any](m map[K]V) []K {
+	keys := make([]K, 0, len(m))
+	for k := range m {
+		keys = append(keys, k)
+	}
+	slices.Sort(keys)
+	return keys
 }
